@@ -260,7 +260,8 @@ enum What {
     Special { entry: usize, kind: u8, v6: bool, ms: u64, retries: usize },
     /// TCP: half of the reply, then the connection stays open and silent
     PartialHold { entry: usize, v6: bool, ms: u64, retries: usize },
-    Master { v6: bool, ms: u64 },
+    /// (the master answers `pages` pages without a terminator and is silent from then on)
+    Master { v6: bool, ms: u64, pages: usize },
     Eco { v6: bool, ms: u64, hold: bool, variant: u8 },
     Echo { tcp: bool, v6: bool },
 }
@@ -333,7 +334,9 @@ fn build(tier: Tier) -> Vec<Case> {
                 v.push(Case { label: format!("eco (http) {} accept-then-hold, read timeout {ms} ms, other timeouts variant {variant}", if v6 { "::1" } else { "127.0.0.1" }), what: What::Eco { v6, ms: *ms, hold: true, variant } });
             }
         }
-        v.push(Case { label: format!("master server {} silent (built-in default timeout)", if v6 { "::1" } else { "127.0.0.1" }), what: What::Master { v6, ms: 4000 } });
+        for pages in [0usize, 1, 2] {
+            v.push(Case { label: format!("master server {} silent after {pages} pages (built-in default timeout)", if v6 { "::1" } else { "127.0.0.1" }), what: What::Master { v6, ms: 4000, pages } });
+        }
         for tcp in [false, true] {
             v.push(Case { label: format!("{} echo {}: payload sizes x receive sizes", if tcp { "tcp" } else { "udp" }, if v6 { "::1" } else { "127.0.0.1" }), what: What::Echo { tcp, v6 } });
         }
@@ -393,7 +396,7 @@ impl Prop for C12 {
          data), unreal2 (trailing receives), quake3, bedrock, java (TCP), legacy 1.6 (TCP)} x silence point {before the first \
          reply, after each reply, never} + {TCP connection refused / UDP port closed} x {127.0.0.1, ::1} x read/write/connect \
          timeout {150 ms (quick); 150, 400 ms (thorough)} x retries {0, 1 (quick); 0, 1, 2}; plus the same settings deserialised from their JSON form; plus, for TCP, half a reply followed by silence on an open connection; eco over HTTP (accept-then-hold, \
-         refused) and the master server (silent). The loopback servers are driven by the same reference models. Oracle: a server silent before the exchange is complete means a PacketReceive error (reference; inside Unreal 2's lists the twin's outcome); the number of receive timeouts of the deterministic twin run is at most the reference count N; the \
+         refused) and the master server (silent from the start, after one page, after two pages). The loopback servers are driven by the same reference models. Oracle: a server silent before the exchange is complete means a PacketReceive error (reference; inside Unreal 2's lists the twin's outcome); the number of receive timeouts of the deterministic twin run is at most the reference count N; the \
          outcome class equals the outcome of the deterministic twin run under the virtual network with the same silence point \
          ; the call returns within N x timeout + 1.5 s, where N is read off the FAULT-FREE exchange (its natural timeouts + one that may end a greedy list + retries + 1 for the unit that meets the silence), not off the implementation's behaviour under the fault; over UDP the server must receive no more than (requests before the silence + retries x requests an attempt sends before its first receive) datagrams (hard watchdog at \
          4x: 'never times out'); every datagram the server received equals a request the twin run sent. Data path: UdpSocket / \
@@ -600,9 +603,14 @@ impl Prop for C12 {
                     Some((k2, d)) => ctx.violation(format!("real-socket:{k2}:tcp"), &[], format!("{}: {d}", case.label), d.clone(), "a receive-class error within (retries + 1) x timeout", vec![]),
                 }
             }
-            What::Master { v6, ms } => {
+            What::Master { v6, ms, pages } => {
                 let ip = loop_ip(v6);
-                let Some(server) = spawn_udp(ip, Arc::new(|| Box::new(crate::vnet::Silent)), 0) else { return };
+                let listing = || -> Box<dyn crate::vnet::Responder> {
+                    use std::net::Ipv4Addr;
+                    let page = |n: u8| -> Vec<crate::rsm::master::Entry> { (1 ..= 3u8).map(|i| (Ipv4Addr::new(198, 51, 100, n * 10 + i), 27015)).collect() };
+                    Box::new(crate::rsm::master::MasterServer::new((1 ..= 6u8).map(page).collect()))
+                };
+                let Some(server) = spawn_udp(ip, Arc::new(listing), pages) else { return };
                 let port = server.port;
                 let bound = Duration::from_millis(ms) + SLACK;
                 let r = with_watchdog(bound * 4, move || {
